@@ -142,3 +142,92 @@ Proof.
   - exact glue_I_overflowing_rem.
 Qed.
 
+(* ==== round 2 (tools/mk_gluetie.py) ==== *)
+(* div_euclid, rem_euclid, div_floor, div_ceil, next_multiple_of, checked_next_multiple_of; bint div_rem_unchecked, overflowing_div, overflowing_div_euclid, overflowing_rem_euclid; the inherent div / rem of const_trait_fillers.rs *)
+Lemma glue_U_div_euclid : forall w a b, Glue.U_div_euclid w a b = U_div_euclid w a b.
+Proof. glue_tac. Qed.
+Lemma glue_U_rem_euclid : forall w a b, Glue.U_rem_euclid w a b = U_rem_euclid w a b.
+Proof. glue_tac. Qed.
+Lemma glue_U_next_multiple_of : forall dbg w a b, Glue.U_next_multiple_of dbg w a b = U_next_multiple_of dbg w a b.
+Proof. glue_tac. Qed.
+Lemma glue_U_div_floor : forall w a b, Glue.U_div_floor w a b = U_div_floor w a b.
+Proof. glue_tac. Qed.
+Lemma glue_U_div_ceil : forall dbg w a b, Glue.U_div_ceil dbg w a b = U_div_ceil dbg w a b.
+Proof. glue_tac. Qed.
+Lemma glue_I_div_euclid : forall dbg w a b, Glue.I_div_euclid dbg w a b = I_div_euclid dbg w a b.
+Proof. glue_tac. Qed.
+Lemma glue_I_rem_euclid : forall dbg w a b, Glue.I_rem_euclid dbg w a b = I_rem_euclid dbg w a b.
+Proof. glue_tac. Qed.
+Lemma glue_I_next_multiple_of : forall dbg w a b, Glue.I_next_multiple_of dbg w a b = I_next_multiple_of dbg w a b.
+Proof. glue_tac. Qed.
+Lemma glue_I_div_floor : forall dbg w a b, Glue.I_div_floor dbg w a b = I_div_floor dbg w a b.
+Proof. glue_tac. Qed.
+Lemma glue_I_div_ceil : forall dbg w a b, Glue.I_div_ceil dbg w a b = I_div_ceil dbg w a b.
+Proof. glue_tac. Qed.
+Lemma glue_U_checked_next_multiple_of : forall dbg w a b, Glue.U_checked_next_multiple_of dbg w a b = U_checked_next_multiple_of dbg w a b.
+Proof. glue_tac. Qed.
+Lemma glue_I_checked_next_multiple_of : forall dbg w a b, Glue.I_checked_next_multiple_of dbg w a b = I_checked_next_multiple_of dbg w a b.
+Proof. glue_tac. Qed.
+Lemma glue_I_div_rem_unchecked : forall dbg w a b, Glue.I_div_rem_unchecked dbg w a b = I_div_rem_unchecked dbg w a b.
+Proof. glue_tac. Qed.
+Lemma glue_I_overflowing_div : forall dbg w a b, Glue.I_overflowing_div dbg w a b = I_overflowing_div dbg w a b.
+Proof. glue_tac. Qed.
+Lemma glue_I_overflowing_div_euclid : forall dbg w a b, Glue.I_overflowing_div_euclid dbg w a b = I_overflowing_div_euclid dbg w a b.
+Proof. glue_tac. Qed.
+Lemma glue_I_overflowing_rem_euclid : forall dbg w a b, Glue.I_overflowing_rem_euclid dbg w a b = I_overflowing_rem_euclid dbg w a b.
+Proof. glue_tac. Qed.
+Lemma glue_U_div : forall w a b, Glue.U_div w a b = U_div w a b.
+Proof. glue_tac. Qed.
+Lemma glue_U_rem : forall w a b, Glue.U_rem w a b = U_rem w a b.
+Proof. glue_tac. Qed.
+Lemma glue_I_div : forall dbg w a b, Glue.I_div dbg w a b = I_div dbg w a b.
+Proof. glue_tac. Qed.
+Lemma glue_I_rem : forall dbg w a b, Glue.I_rem dbg w a b = I_rem dbg w a b.
+Proof. glue_tac. Qed.
+
+Definition glue_div2_statement : Prop :=
+  (forall w a b, Glue.U_div_euclid w a b = U_div_euclid w a b) /\
+  (forall w a b, Glue.U_rem_euclid w a b = U_rem_euclid w a b) /\
+  (forall dbg w a b, Glue.U_next_multiple_of dbg w a b = U_next_multiple_of dbg w a b) /\
+  (forall w a b, Glue.U_div_floor w a b = U_div_floor w a b) /\
+  (forall dbg w a b, Glue.U_div_ceil dbg w a b = U_div_ceil dbg w a b) /\
+  (forall dbg w a b, Glue.I_div_euclid dbg w a b = I_div_euclid dbg w a b) /\
+  (forall dbg w a b, Glue.I_rem_euclid dbg w a b = I_rem_euclid dbg w a b) /\
+  (forall dbg w a b, Glue.I_next_multiple_of dbg w a b = I_next_multiple_of dbg w a b) /\
+  (forall dbg w a b, Glue.I_div_floor dbg w a b = I_div_floor dbg w a b) /\
+  (forall dbg w a b, Glue.I_div_ceil dbg w a b = I_div_ceil dbg w a b) /\
+  (forall dbg w a b, Glue.U_checked_next_multiple_of dbg w a b = U_checked_next_multiple_of dbg w a b) /\
+  (forall dbg w a b, Glue.I_checked_next_multiple_of dbg w a b = I_checked_next_multiple_of dbg w a b) /\
+  (forall dbg w a b, Glue.I_div_rem_unchecked dbg w a b = I_div_rem_unchecked dbg w a b) /\
+  (forall dbg w a b, Glue.I_overflowing_div dbg w a b = I_overflowing_div dbg w a b) /\
+  (forall dbg w a b, Glue.I_overflowing_div_euclid dbg w a b = I_overflowing_div_euclid dbg w a b) /\
+  (forall dbg w a b, Glue.I_overflowing_rem_euclid dbg w a b = I_overflowing_rem_euclid dbg w a b) /\
+  (forall w a b, Glue.U_div w a b = U_div w a b) /\
+  (forall w a b, Glue.U_rem w a b = U_rem w a b) /\
+  (forall dbg w a b, Glue.I_div dbg w a b = I_div dbg w a b) /\
+  (forall dbg w a b, Glue.I_rem dbg w a b = I_rem dbg w a b).
+Theorem glue_div2_matches_model : glue_div2_statement.
+Proof.
+  unfold glue_div2_statement. repeat apply conj.
+  - exact glue_U_div_euclid.
+  - exact glue_U_rem_euclid.
+  - exact glue_U_next_multiple_of.
+  - exact glue_U_div_floor.
+  - exact glue_U_div_ceil.
+  - exact glue_I_div_euclid.
+  - exact glue_I_rem_euclid.
+  - exact glue_I_next_multiple_of.
+  - exact glue_I_div_floor.
+  - exact glue_I_div_ceil.
+  - exact glue_U_checked_next_multiple_of.
+  - exact glue_I_checked_next_multiple_of.
+  - exact glue_I_div_rem_unchecked.
+  - exact glue_I_overflowing_div.
+  - exact glue_I_overflowing_div_euclid.
+  - exact glue_I_overflowing_rem_euclid.
+  - exact glue_U_div.
+  - exact glue_U_rem.
+  - exact glue_I_div.
+  - exact glue_I_rem.
+Qed.
+(* ==== end of round 2 ==== *)
